@@ -329,6 +329,33 @@ def run (ctx):
       if norm(t) == 'self._locked':
         good = f.name in ('_do_acquire', '_do_release', '__init__')
         ctx.ob('R-OWN', f, "lock ownership is written only by acquire/release (`%s`)" % norm(st), good, f.name, (mod, st), 'D5')
+  # "free" is decided by the owner slot: where that is a truth test (`if not self._locked`) rather than `is None`, no task may be
+  # falsy - a task class with __len__ / __bool__ (a consumer whose work queue is empty) would hold the lock and look like nobody
+  truthy_owner = [x_ for f_ in (da, dr) for x_ in ast.walk(f_.node)
+                  if (isinstance(x_, ast.UnaryOp) and isinstance(x_.op, ast.Not) and norm(x_.operand) == 'self._locked')
+                  or (isinstance(x_, (ast.If, ast.While, ast.IfExp)) and norm(x_.test) == 'self._locked')]
+  if truthy_owner:
+    base_ = repo.cls(RC, 'BaseTask')
+    falsy = []
+    for k_ in repo.all_classes():
+      try: isa = base_ in k_.mro()
+      except Exception: isa = False
+      if isa and ('__len__' in k_.methods or '__bool__' in k_.methods or '__nonzero__' in k_.methods): falsy.append(k_)
+    ctx.ob('R-AGREE', da, "a lock owned by a task is not free (owner tested by truth value: no task class can be falsy)", not falsy,
+           "no BaseTask subclass defines __len__ / __bool__" if not falsy else
+           "%s defines %s, and Lock decides 'free' by `%s`: while such a task owns the lock and is falsy (an empty work queue) a second task acquires it too - two tasks hold one lock, and the later release raises"
+           % (falsy[0].qual, '__len__' if '__len__' in falsy[0].methods else '__bool__', norm(truthy_owner[0])[:30]), falsy[0] if falsy else da, 'D5')
+  # the idle break: whoever queues work for the scheduler signals unconditionally - a wake-up skipped because of state that the scheduler
+  # thread changes concurrently (an "I am idle" flag) is lost when the work arrives between the scheduler's emptiness test and that flag
+  hubc = repo.cls(RC, 'SelectHub'); bi_ = hubc.methods.get('break_idle') if hubc is not None else None
+  if bi_ is not None:
+    ctx.analysed(bi_); gb_ = q.cfg_of(bi_)
+    sig = gb_.nodes_with_call(lambda c: call_name(c) in ('set', '_cycle', 'ping', 'notify', 'notify_all'))
+    good = bool(sig) and gb_.postdominates(sig, gb_.entry)
+    skip = [n_ for n_ in gb_.nodes if n_.kind == 'return' and not any(gb_.dominates(s_, n_) for s_ in sig)]
+    ctx.ob('R-DOM', bi_, "breaking the idle wait signals on every path", good, "event.set() / _cycle() on every path" if good else
+           "a path through break_idle returns without signalling (%s): the state it looks at is written by the scheduler thread without synchronisation - work queued between the scheduler's `len(self._ready) == 0` test and "
+           "that write gets no wake-up and waits for the polling timeout" % (q.fact_strs(gb_, skip[0])[-1:] if skip else '?'), (bi_.module, skip[0].ast) if skip else bi_, 'D2')
   g = q.cfg_of(da); tk = da.params[1]
   own = [q.enclosing_stmt_node(g, st) for t, v, st, k in q.stores_in(da.node) if norm(t) == 'self._locked']
   park = g.nodes_with_call(lambda c: call_name(c) in ('add', 'append') and norm(c.func.value) == 'self._waiting')
